@@ -9,7 +9,7 @@ propmap = {
  'committed batch rejects': 'C05 C09', 'batch writes are added': 'C17', 'batch flush rotates': 'C17 C06', 'Sync batch is flushed': 'C13 C04',
  'Put and Delete update the index': 'C08 C09', 'ListKeys sizes': 'C09', 'take the shard write lock': 'C09', 'Merge and Sync read': 'C09',
  'B-tree and skip-list indexes store': 'C15 C14', 'FileIO.Close flushes': 'C13', 'Open releases the directory lock': 'C16',
- 'MMap.ResetFileSize drops': 'C20', 'Backup removes data and hint files of the destination': 'C20', 'new iterator starts at the first key': 'C10', 'Batch.Get returns a copy of a staged value': 'C15 C05', 'MMap.Sync and Close work after': 'C20 C13', 'recovery treats a torn tail': 'C03', 'zero-filled extension': 'C03', 'records assembled from chunks': 'C12', 'a structure command on a key holding another type replies WRONGTYPE': 'C19', 'CopyDir cleans the source path': 'C20', 'background merge goroutine reads bytesWrite under the engine lock': 'C09', 'Merge flushes the active file (db.Sync) before it writes the finished marker': 'C04 C07 C03',
+ 'MMap.ResetFileSize drops': 'C20', 'Backup removes data and hint files of the destination': 'C20', 'new iterator starts at the first key': 'C10', 'Batch.Get returns a copy of a staged value': 'C15 C05', 'MMap.Sync and Close work after': 'C20 C13', 'recovery treats a torn tail': 'C03', 'zero-filled extension': 'C03', 'records assembled from chunks': 'C12', 'a structure command on a key holding another type replies WRONGTYPE': 'C19', 'CopyDir cleans the source path': 'C20', 'background merge goroutine reads bytesWrite under the engine lock': 'C09', 'Merge flushes the active file (db.Sync) before it writes the finished marker': 'C04 C07 C03', 'MMap guards its mapping with a lock': 'C09 C08 C20',
 }
 kf = json.load(open('/verif/known_findings.json'))
 fixed = []
